@@ -66,7 +66,9 @@ func genCommand(t *rapid.T) (text, kind string, valid bool) {
 		if rapid.Bool().Draw(t, "shuffle") {
 			ms = rapid.Permutation(ms).Draw(t, "order")
 		}
-		return vh.JoinMembers(ms, rapid.SampledFrom([]string{"", " "}).Draw(t, "ws")), kind, valid
+		// insignificant whitespace a conforming JSON encoder may put around the object
+		pad := rapid.SampledFrom([][2]string{{"", ""}, {"", ""}, {"", ""}, {" ", ""}, {"\n", "\n"}, {"\t", " "}, {"\r\n", "\r\n"}}).Draw(t, "pad")
+		return pad[0] + vh.JoinMembers(ms, rapid.SampledFrom([]string{"", " "}).Draw(t, "ws")) + pad[1], kind, valid
 	case 4, 5, 6: // legacy
 		user := vh.GenPlainToken(t, "luser")
 		host := vh.GenPlainToken(t, "lhost")
@@ -395,7 +397,7 @@ func exec(c0 Case) (vh.Outcome, error) {
 	return out, nil
 }
 
-const rule = "SSH_ORIGINAL_COMMAND: JSON objects under the documented wire names (complete, member dropped, member retyped, extra look-alike members such as logName/clientIP, shuffled), legacy text (version omitted / empty / valid / invalid, requester absent / without '@'), other JSON values (null, arrays, strings with ' req=a@b '), empty, bytes, legacy noise; LOGNAME empty / unicode / spaces; SSH_CONNECTION v4, v6, zone-suffixed, leading zeros, bracketed, empty, leading space, tab; argv 0..8 arguments partitioned at random from token lists (valid 3..6 tokens, wrong count, policy misplaced or misspelt, empty tokens). Each Case is evaluated twice. Oracle on success: LogName = LOGNAME != '', ClientIP = first field and valid without zone (net/netip), policy in {NONS,NSOK} = second-last token, handler = last token, version = independently parsed major.minor of the declared text (0.0 only when a legacy message has none), ReqUser/ReqHost = declared values, transaction id 10 hex digits and different between the two evaluations; inputs valid by construction must succeed. Non-trivial: accepted cases and refused cases whose command is a non-object JSON value; distinct by Case hash."
+const rule = "SSH_ORIGINAL_COMMAND: JSON objects under the documented wire names (complete, member dropped, member retyped, extra look-alike members such as logName/clientIP, shuffled, with insignificant whitespace around the object), legacy text (version omitted / empty / valid / invalid, requester absent / without '@'), other JSON values (null, arrays, strings with ' req=a@b '), empty, bytes, legacy noise; LOGNAME empty / unicode / spaces; SSH_CONNECTION v4, v6, zone-suffixed, leading zeros, bracketed, empty, leading space, tab; argv 0..8 arguments partitioned at random from token lists (valid 3..6 tokens, wrong count, policy misplaced or misspelt, empty tokens). Each Case is evaluated twice. Oracle on success: LogName = LOGNAME != '', ClientIP = first field and valid without zone (net/netip), policy in {NONS,NSOK} = second-last token, handler = last token, version = independently parsed major.minor of the declared text (0.0 only when a legacy message has none), ReqUser/ReqHost = declared values, transaction id 10 hex digits and different between the two evaluations; inputs valid by construction must succeed. Non-trivial: accepted cases and refused cases whose command is a non-object JSON value; distinct by Case hash."
 
 func TestC14Params(t *testing.T) {
 	vh.Run(t, vh.Spec[Case]{Property: "C14", Name: "TestC14Params", Rule: rule, Gen: gen, Exec: exec})
